@@ -25,9 +25,106 @@ FORMAT_WEIGHTS = [(3, "bed3"), (3, "bed6"), (2, "narrowpeak"), (2, "bdg"), (3, "
                   (2, "sam")]
 
 
+BAM_FIELDS = ["chromosome", "name", "flag", "position", "mapq", "cigar_op", "cigar_length", "sequence", "quality"]
+
+
+def generate_bam(ctx):
+    """BAM twin scenario: the file comes from the independent BAM model of C16"""
+    from . import C16 as _c16
+    tape = ctx.tape
+    f = _c16.File(ctx, ctx.tier == "thorough")
+    n = len(f.records)
+    idx = L.gen_index(tape, n, "bam.idx")
+    pre = [BAM_FIELDS[tape.draw(len(BAM_FIELDS), "bam.pre")] for _ in range(tape.draw(3, "bam.npre"))]
+    post = [BAM_FIELDS[tape.draw(len(BAM_FIELDS), "bam.post")] for _ in range(1 + tape.draw(3, "bam.npost"))]
+    # KF-C05-bam-eager-write-unsupported: an eagerly read BAM table cannot be written (no header context, no from_data),
+    # the lazily read one can; the write step is generated in 10 % of the runs only
+    do_write = (not ctx.excl) and tape.boolean("bam.write", 2, 3)
+    return {"kind": "bam", "bam": core.esc(f.data), "n_records": n, "idx": idx, "pre": pre, "post": post, "write": do_write,
+            "records": f.describe() if hasattr(f, "describe") else None}
+
+
+def execute_bam(ctx, sc):
+    import numpy as np
+    from . import C16 as _c16
+    b = core.bnp()
+    fs = simfs.SimFS()
+    fs.put("/sim/x.bam", core.unesc(sc["bam"]))
+    idx = sc["idx"]
+    detail0 = {"kind": "bam", "n_records": sc["n_records"], "idx": idx, "pre": sc["pre"], "post": sc["post"], "write": sc["write"]}
+
+    def key():
+        if idx["kind"] == "slice":
+            return slice(idx["a"], idx["b"], idx["c"])
+        if idx["kind"] == "mask":
+            return np.array(idx["bits"], dtype=bool)
+        return list(idx["vals"])
+
+    worlds = {}
+    with simfs.Mount(fs), core.quiet():
+        for mode, lazy in (("lazy", True), ("eager", False)):
+            t = core.call(lambda: b.open("/sim/x.bam", lazy=lazy).read())
+            worlds[mode] = {"t": t, "trace": []}
+        tl, te = worlds["lazy"]["t"], worlds["eager"]["t"]
+        if raised(tl) and raised(te):
+            raise Inconclusive("both source reads raise")
+        if raised(tl) != raised(te):
+            raise Violation("twin", "bam.read.one_fails", dict(detail0, lazy_result=repr(tl)[:200], eager_result=repr(te)[:200]))
+        steps = [("sel", None)] + [("get", f) for f in sc["pre"]] + ([("write", None)] if sc["write"] else []) + \
+                [("get", f) for f in sc["post"]] + [("all", None)]
+        cur = {"lazy": tl, "eager": te}
+        for j, (op, arg) in enumerate(steps):
+            ctx.steps += 1
+            ctx.evals += 1
+            res = {}
+            for mode in ("lazy", "eager"):
+                v = cur[mode]
+                if op == "sel":
+                    r = core.call(lambda: v[key()])
+                    if not raised(r):
+                        cur[mode] = r
+                        r = core.call(len, r)
+                elif op == "get":
+                    r = core.call(lambda: core.plain(getattr(v, arg)))
+                elif op == "write":
+                    out = f"/sim/{mode}.bam"
+
+                    def w():
+                        with b.open(out, "w") as wr:
+                            wr.write(v)
+                        return core.esc(fs.files[out])
+                    r = core.call(w)
+                else:
+                    r = _c16.render(v, BAM_FIELDS)
+                res[mode] = r
+            rl, re_ = res["lazy"], res["eager"]
+            ctx.state("bam", op, arg, raised(rl), raised(re_))
+            d = dict(detail0, step=j, op=[op, arg], lazy_result=core.short(render(rl), 300), eager_result=core.short(render(re_), 300))
+            if raised(rl) and raised(re_):
+                ctx.probe("both_fail_bam_" + op)
+                if op == "sel":
+                    break
+                continue
+            if raised(rl) != raised(re_):
+                raise Violation("twin", f"bam.{op}.one_fails", d)
+            if op == "write":
+                # gzip member headers carry a wall-clock mtime: compare the decompressed streams
+                import gzip as _gz
+                a, c = core.call(lambda: _gz.decompress(core.unesc(rl))), core.call(lambda: _gz.decompress(core.unesc(re_)))
+                if raised(a) or raised(c) or a != c:
+                    raise Violation("twin", "bam.write.differs", d)
+            elif not core.same(rl, re_):
+                raise Violation("twin", f"bam.{op}.differs", d)
+    ctx.probe("bam_twin")
+    ctx.io_events += fs.seq
+    ctx.note("C05", "bam", sc["idx"]["kind"], sc["pre"], sc["post"], sc["write"])
+
+
 def generate(ctx):
     tape = ctx.tape
     thorough = ctx.tier == "thorough"
+    if tape.boolean("bam_scenario", 1, 6):
+        return generate_bam(ctx)
     fd = _c01.gen_file(ctx, "", 8 if thorough else 5, format_weights=FORMAT_WEIGHTS, allow_gzip=False,
                        lazy_choices=(True,), canonical=True)
     fd["route"] = "path"
@@ -46,6 +143,8 @@ def render(x):
 
 
 def execute(ctx, sc):
+    if sc.get("kind") == "bam":
+        return execute_bam(ctx, sc)
     f = _c01.File(sc["file"])
     fmt = f.fmt
     probe = L.World(f, False, sc["chunk_k"])
